@@ -126,7 +126,7 @@ pub struct Case {
     pub rpcs: Vec<Rpc>,
     /// restart the server (SIGTERM) before this RPC index
     pub restart_at: Option<usize>,
-    /// hnsw.max_elements = 20 (= the 20 documents four writers x five ids can hold): overwrites
+    /// hnsw.max_elements = 20 (25 with the fifth writer of evolving-key-file cases) = the number of documents the writers x five ids can hold: overwrites
     /// and deletes fill the graph with tombstones and inserts trigger tombstone compaction
     #[serde(default)]
     pub small_index: bool,
@@ -258,7 +258,9 @@ impl World {
     fn start(cosine: bool, small_index: bool, evolve: bool, root: &std::path::Path, shard: usize) -> Result<World, Failure> {
         let mut cfg = SrvCfg::default_for(DIM, if cosine { "cosine" } else { "euclidean" }, true, 1_000_000);
         if small_index {
-            cfg.max_elements = 20;
+            // >= the number of documents the writers can hold at once: 4 writers x 5 ids, plus
+            // alpha's second key (same tenant) and delta in evolving-key-file cases = 5 x 5
+            cfg.max_elements = if evolve { 25 } else { 20 };
         }
         if evolve {
             cfg.tenants.push(crate::common::srv::TenantSpec { id: "alpha", key: Who::Alpha2.key().unwrap(), max_vectors: 1_000_000, max_qps: 0, admin: false, enabled: true });
